@@ -9,6 +9,14 @@
   functions on `input_index >= inputs` are `panic`).  The cache reads are inlined here (the cache
   itself is modelled in `EV.Model.SighashCache`, C13).
 
+  Rust items transcribed here (read by tools/modelled_items.py): `SighashCache::encode_legacy_signing_data_to`,
+  `SighashCache::legacy_sighash`, `SighashCache::encode_segwitv0_signing_data_to`, `SighashCache::segwitv0_sighash`,
+  `SighashCache::taproot_encode_signing_data_to`, `SighashCache::taproot_sighash`,
+  `SighashCache::taproot_key_spend_signature_hash`, `SighashCache::taproot_script_spend_signature_hash`,
+  `SighashCache::common_cache`, `SighashCache::segwit_cache`, `SighashCache::taproot_cache`,
+  `TxIn::outpoint_flag`, `SchnorrSighashType::split_anyonecanpay_flag`, `EcdsaSighashType::split_anyonecanpay_flag`,
+  `EcdsaSighashType::from_u32`, `EcdsaSighashType::as_u32`, `SchnorrSighashType::from_u8`, `Annex::new`.
+
   Part 2 (SPEC): an independent transcription of the specifications (Elements Core's
   `CTransactionSignatureSerializer`, BIP143 + issuance extension, BIP341 + Elements extensions):
   first the record of committed fields (`LegacyView`, `SegwitView`, `TaprootView`) is assembled
